@@ -269,7 +269,19 @@ fn decorate(rng: &mut Rng, text: &str, pool: &[char]) -> String {
         (0..n).map(|_| *rng.pick(pool)).collect()
     };
     let mut out = String::with_capacity(text.len() + 64);
+    // "dense" contents carry long runs of non-ASCII text (long comments and literals), so that
+    // any fixed-size piece a codec or writer might cut the text into ends inside such a run
+    let dense = rng.chance(1, 5);
     for line in text.split_inclusive('\n') {
+        if dense && rng.chance(1, 6) {
+            let n = rng.range(100, 3000) as usize;
+            let run: String = (0..n).map(|_| *rng.pick(pool)).filter(|c| *c != '\n' && *c != '\r' && *c != '\u{2028}' && *c != '\u{85}').collect();
+            if rng.chance(1, 2) {
+                out.push_str(&format!("// {run}\n"));
+            } else {
+                out.push_str(&format!("S := '{}';\n", run.replace('\'', "")));
+            }
+        }
         if rng.chance(1, 4) {
             let w = word(rng);
             match rng.below(5) {
